@@ -18,11 +18,16 @@ RULE = ('templates $"..." of 0-4 $-free literal segments (punctuation, unicode, 
         'computed by the harness; $env results must be strings with exactly the variable\'s bytes; a missing reference must fail. A sample '
         'runs through the bkl binary. Non-trivial = at least one reference; distinct = distinct (document, environment).')
 ASSUMPTIONS = ['environment values containing $ are excluded from the generated workload (recorded known finding, see known_findings.json)',
-               'text form of floats with exponents and of non-scalars is not judged']
+               'text form of floats with exponents and of non-scalars is not judged',
+               'path segments are keys that YAML reads as plain strings: the text of a path is decoded as YAML by design (list form [a, b]), so a key '
+               'spelled 9, true or @x cannot be named by a dotted path and is not generated']
 
 VALS = ['', 'plain', '123', '1.5', 'true', 'null', 'No', '~', 'a=b', 'k=v=w', '{a}', '{', '}', '{$env:X', 'a b', ' lead', 'trail ', 'q"uote', "s'q", 'ünï', 'x:y', '- z', '# c',
         '[1]', '{"k": 1}', 'host=db port=5432', '{b}|{a}', '0x10', '1e3', '\\n', 'tab\there', 'a,b', '*', '&x', '!t', '%', '@', 'very long value ' * 3]
 SEGS = ['\n', 'l1\nl2', 'end\n', '', 'a', '-', ' ', ':', '}', '} ', 'x}y', 'é', '/', '.', ', ', '=', '"', "'", '#', 'seg ', '()', '[]', '|', '\\', 'A:B ', '~', '*&!']
+
+
+PATHKEYS = ['listen-port', 'host name', 'a_b', 'ünï', 'x/y', 'K8s', 'a-b-c', 'plus+', 'q?', 'semi;', 'tilde~', '(p)', 'v9', 'at@']     # keys a {path} can name
 
 
 def env_for(group):
@@ -45,7 +50,8 @@ def text_of(v):
 def gen_case(rng, i, tier):
     group = i // 512
     env = env_for(group)
-    doc = gen.tree(rng, 3, 3, nulls=False, root='map', pool=[0, 1, 2, 7, -5, 1.5, 0.25, 'x', 'y', 'zz', 'sp ace', True, False])
+    doc = gen.tree(rng, 3, 3, nulls=False, root='map', pool=[0, 1, 2, 7, -5, 1.5, 0.25, 'x', 'y', 'zz', 'sp ace', True, False],
+                   keys=gen.KEYS + PATHKEYS if rng.random() < 0.5 else None)
     leaves = [(p, n) for p, n in walk(doc) if p and all(isinstance(k, str) and '.' not in k and '}' not in k and '{' not in k for k in p) and not isinstance(n, (dict, list))]
     uses = []
     out = {}
